@@ -250,6 +250,60 @@ impl Sess {
         }
     }
 
+    /// An operation whose inputs are given as (content, optional pre-existing bytes): used to run
+    /// set operations over FSTs of older format versions.
+    pub fn op_with_bytes(&mut self, op: &str, inputs: &[(Vec<Kv>, Option<Vec<u8>>)]) {
+        let mids: Vec<usize> = inputs.iter().map(|i| self.model(&i.0)).collect();
+        let table = merge_table(&inputs.iter().map(|i| &i.0).collect::<Vec<_>>());
+        self.no += 1;
+        let o = self.no;
+        let jt: Vec<Value> = table
+            .iter()
+            .map(|(k, hs)| json!([jb(k), hs.iter().map(|(j, v)| json!([j, ju(*v)])).collect::<Vec<_>>()]))
+            .collect();
+        self.log.ev(json!({"ev": "ONew", "o": o, "op": op, "via": "raw-bytes", "ins": mids, "kinds": [], "table": jt}));
+        let all: Vec<Vec<u8>> = inputs.iter().map(|(items, b)| b.clone().unwrap_or_else(|| build_bytes(items))).collect();
+        let mut results: Vec<Option<(Vec<u8>, Vec<(usize, u64)>)>> = vec![];
+        let r = guard(|| {
+            let fsts: Vec<Fst<&[u8]>> = all.iter().map(|b| Fst::new(&b[..]).unwrap()).collect();
+            let mut b = fst::raw::OpBuilder::new();
+            for f in &fsts {
+                b.push(f);
+            }
+            macro_rules! drain_op2 {
+                ($st:expr) => {{
+                    let mut st = $st;
+                    while let Some((k, ivs)) = st.next() {
+                        results.push(Some((k.to_vec(), ivs.iter().map(|iv| (iv.index, iv.value)).collect())));
+                    }
+                    results.push(None);
+                }};
+            }
+            match op {
+                "union" => drain_op2!(b.union()),
+                "intersection" => drain_op2!(b.intersection()),
+                "difference" => drain_op2!(b.difference()),
+                _ => drain_op2!(b.symmetric_difference()),
+            }
+        });
+        for res in results {
+            match res {
+                None => self.log.ev(json!({"ev": "ONext", "o": o, "idx": 0, "res": []})),
+                Some((k, outs)) => {
+                    let idx = match table.binary_search_by(|row| row.0[..].cmp(&k[..])) {
+                        Ok(i) => (i + 1) as i64,
+                        Err(_) => -1,
+                    };
+                    let jo: Vec<Value> = outs.iter().map(|(j, v)| json!([j, ju(*v)])).collect();
+                    self.log.ev(json!({"ev": "ONext", "o": o, "idx": idx, "res": [[jb(&k), jo]]}));
+                }
+            }
+        }
+        if let Err(p) = r {
+            self.panic_ev("ONext", &p);
+        }
+    }
+
     /// Set-level operations: keys only (set::OpBuilder yields keys); logged as ONext with the
     /// holders taken from the table when the key is right (the set API reports no indices).
     pub fn set_op(&mut self, op: &str, inputs: &[OpInput], limit: usize) {
